@@ -152,8 +152,11 @@ def gen_case(rng, contract_scripts):
         elif k == "rel":
             outs = [rand_script() for _ in range(rng.range(0, 3))]
             ins = [rand_script() for _ in range(rng.range(0, 2))]
-            if contract_scripts and rng.chance(1, 4):
-                outs.insert(rng.below(len(outs) + 1), rng.choice(contract_scripts))
+            if contract_scripts and rng.chance(1, 3):
+                # one to three Tokenized action outputs in any order (a message or transfer before / after a
+                # contract formation or instrument creation), among ordinary outputs
+                for _k in range(rng.weighted([(1, 3), (2, 4), (3, 2)])):
+                    outs.insert(rng.below(len(outs) + 1), rng.choice(contract_scripts))
             ops.append(["isrelevant", outs, ins])
         elif k == "contracts":
             ops.append([rng.choice(["subcontracts", "subcontracts", "unsubcontracts"])])
